@@ -311,7 +311,7 @@ def wildcardize(rng, t, canon):
 
 def run(ctx):
     rng = ctx.rng
-    nlang = 5 if ctx.tier == "quick" else 30
+    nlang = 5 if ctx.tier == "quick" else 10
     for li in range(nlang):
         spec = G.gen_lang(rng, max_base=5, max_ops=2, max_arity=2)
         Q.LANGSPEC = spec
